@@ -46,7 +46,7 @@ def biases(rng):
     return b
 
 
-def timeline(mode, rng_seed, sched_seed):
+def timeline(mode, rng_seed, sched_seed, err_step=-1):
     """mode: ('none',) | ('cvcs', threads, real)"""
     rng = cvlib.Rng(rng_seed)
     srng = cvlib.Rng(sched_seed)
@@ -54,6 +54,10 @@ def timeline(mode, rng_seed, sched_seed):
     if mode[0] == "cvcs":
         L += ["m.opt threads %d" % mode[1], "m.opt realthreads %d" % int(mode[2])]
     vs = variables(rng); bs = biases(rng)
+    if err_step >= 0:
+        # a variable whose component fails at one step (a NaN coordinate makes the diagonalisation of the optimal rotation fail): the
+        # other work items of that step must be computed all the same, in every order
+        vs.append(("m", "colvar {\n name m\n rmsd {\n  atoms { atomNumbers 6 7 8 9 }\n  refPositions (0.0, 0.0, 0.0) (1.0, 0.0, 0.0) (0.0, 1.0, 0.0) (0.0, 0.0, 1.0)\n }\n}\n"))
     L.append(cfg("".join(t for _, t in vs)))
     nb = rng.randint(4, len(bs))
     chosen = bs[:nb]
@@ -79,6 +83,8 @@ def timeline(mode, rng_seed, sched_seed):
         for a in range(NAT):
             P[a] = [x + rng.uniform(-0.15, 0.15) for x in P[a]]
             L.append(pos(a, *P[a])); L.append(tf(a, rng.uniform(-2, 2), rng.uniform(-2, 2), rng.uniform(-2, 2)))
+        if s == err_step:
+            L.append(pos(8, float("nan"), P[8][1], P[8][2]))
         if mode[0] == "cvcs":
             nitems = 12
             perm = list(range(nitems)); srng.shuffle(perm)
@@ -163,6 +169,18 @@ def gen(rng, tier):
             lines += Lv
             variants.append({"mode": [md[0], md[1], bool(md[2])], "probes": [x + off for x in pv]})
         cases.append({"lines": lines, "meta": {"kind": "schedules", "ref": refs, "variants": variants}, "nontrivial": True})
+    # a step at which one component fails: threaded schedules compared with each other (the serial loop stops at the failing variable, the
+    # threaded one does not: they are not compared at that step)
+    for k in range(2 if tier == "quick" else 12):
+        seed = rng.randint(1, 1 << 30); es = rng.randint(2, 6)
+        L0, p0 = timeline(("cvcs", 1, False), seed, rng.randint(1, 1 << 30), err_step=es)
+        lines = list(L0); refs = list(p0); variants = []
+        for md in [("cvcs", 2, False), ("cvcs", 3, False), ("cvcs", 4, False)]:
+            Lv, pv = timeline(md, seed, rng.randint(1, 1 << 30), err_step=es)
+            off = len(lines)
+            lines += Lv
+            variants.append({"mode": [md[0], md[1], bool(md[2])], "probes": [x + off for x in pv]})
+        cases.append({"lines": lines, "meta": {"kind": "schedules", "ref": refs, "variants": variants, "threaded_ref": True, "err_step": es}, "nontrivial": True})
     return cases
 
 
@@ -194,8 +212,9 @@ def oracle(case, out):
                 what = case["lines"][a - 1][:40]
                 diff = [k for k in set(ra) | set(rb) if ra.get(k) != rb.get(k)]
                 k0 = sorted(diff)[0]
-                return ["%s evaluation with %d %s thread(s) differs from the serial one at '%s' (op line %d): %s = %s, serial %s"
-                        % ("component-parallel", v["mode"][1], "real" if v["mode"][2] else "simulated", what, b, k0[0],
+                return ["%s evaluation with %d %s thread(s) differs from the %s one at '%s' (op line %d): %s = %s, serial %s"
+                        % ("component-parallel", v["mode"][1], "real" if v["mode"][2] else "simulated",
+                           ("single-thread, identity-order (a component fails at step %d)" % m["err_step"]) if m.get("threaded_ref") else "serial", what, b, k0[0],
                            " ".join(rb.get(k0, ["-"]))[:90], " ".join(ra.get(k0, ["-"]))[:90])]
     return []
 
